@@ -25,7 +25,7 @@ def auto_ok(sig):
         return 'commutative reduction (%s)' % c.split(':')[1]
     if c == 'retain' and not sig.get('shared_writes'):
         return 'retain with a predicate that writes nothing'
-    if c == 'for-loop' and not sig.get('shared_writes'):
+    if c == 'for-loop' and not sig.get('shared_writes') and not sig.get('early_exit'):
         return 'loop body writes only through the element'
     if c.startswith('ordered:collect') and sig.get('sorted'):
         return 'collected and sorted before use'
@@ -56,7 +56,7 @@ def o1(W, ob):
         cands = budget.get(k, [])
         hit = None
         for e in cands:
-            if all(e.get(x) == sig.get(x) for x in ('consumer', 'shared_writes', 'sorted', 'returned', 'into')):
+            if all(e.get(x) == sig.get(x) for x in ('consumer', 'shared_writes', 'sorted', 'returned', 'into', 'early_exit')):
                 hit = e
                 break
         if hit is not None:
@@ -126,10 +126,13 @@ def o2(W, ob):
 
 from . import removals
 
+from . import vocab
+
 OBLIGATIONS = [
     ('C17.O1', 'every hash iteration is classified', 'each of the >= 30 iteration sites over a HashMap/HashSet is a commutative reduction, a pure retain, a loop without '
      'shared writes, collected-and-sorted, or matches a reviewed entry with exactly the computed effect signature; callers of map-ordered results are reviewed.', o1),
     ('C17.O2', 'canonical orders', 'InputBytes::from_inputs iterates 0..num_players with lookups; UdpProtocol::new sorts the handles it stores; outgoing_local_inputs is a BTreeMap.', o2),
     ('C17.O3', 'order-independent merge of pending disconnects (= C07.O3)', 'see C07.O3', c07.o3),
     ('C17.R', 'who may remove', 'every call that takes elements out of a collection this property\'s rules rely on (keyed removal from a map, or bulk / positional removal) is one of the reviewed sites in tables/removals.json; a lookup turned into a removal, a second prune, a clear on another path is reported; see rules/removals.py', removals.rule_for('C17')),
+    ('C17.V', 'no unreviewed condition in the pinned helpers', 'for each helper whose body this property\'s rules pin (tables/condition_terms.json), the terms its path conditions are built from (fields, parameters, call results -- no constants, operators or local names) are a subset of the reviewed vocabulary: one more `if` in front of a pinned result (a lock that may time out, "only while an endpoint is running") is reported; see rules/vocab.py', vocab.rule_for('C17')),
 ]
